@@ -45,7 +45,7 @@ func (s *State) LoadDevice(
 
 	s.Conn.SetLogFH(logConfig)
 	errlog.Info("Requesting device config")
-	out := s.Conn.GetCmdOutput("write term")
+	out := s.GetConfig("write term")
 	errlog.Info("Got device config")
 	config, err := s.ParseConfig([]byte(out), "<device>")
 	errlog.Info("Parsed device config")
